@@ -895,7 +895,7 @@ def gen_cases(ctx):
     ctx.notes['graph_bodies_changed'] = changed
     if changed and ctx.tier == 'quick':
         ctx.notes['hub_extended_search'] = 'bodies changed: ' + ', '.join(changed)
-        STAGE_BUDGET['quick'] = 250000
+        STAGE_BUDGET['quick'] = 120000
     for c in hub_cases(ctx.rng, ctx.tier, extended=bool(changed)):
         c['id'] = len(cases)
         cases.append(c)
